@@ -79,6 +79,7 @@ func checkC18(c *Ctx) {
 		c.c18Read(b)
 		c.c18WriteDelete(b)
 		c.c18Batch(b)
+		c.c18Internal(b)
 	}
 	for _, sib := range siblings {
 		fo := c.failover(sib)
@@ -151,6 +152,31 @@ func (c *Ctx) c18Read(b BK) {
 		r.Unknown("R18.1", op, "no path with a tracker")
 	} else if !hasViolation(r.Obls, "R18.1", op) {
 		r.OK("R18.1", op, fmt.Sprintf("%d tracked paths", n))
+	}
+}
+
+// c18Internal: the janitor's removals (expired scan, eviction) are not Delete/DeleteAll events: they emit no per-operation metric
+// (evictions are accounted once per cycle by cache_evict, R18.5).
+func (c *Ctx) c18Internal(b BK) {
+	r := c.R
+	for _, m := range []string{"deleteExpired", "evictMostExpired", "evictLeastCounter"} {
+		op := b.Name + "." + m
+		run := c.bk(b, op, true)
+		if run.err != nil {
+			r.Unknown("R18.2", op, run.err.Error())
+			continue
+		}
+		bad := false
+		for _, p := range run.paths {
+			if cnt := metricCounts(p.Events); len(cnt) != 0 {
+				bad = true
+				r.Bad("R18.2", op, "internal-removal-counted", c.Pos(p.RetPos), "the janitor's "+m+" emits "+fmtCounts(cnt)+": entries removed by cleanup/eviction are counted as Delete/Write/Read events", shortTrace(p))
+				break
+			}
+		}
+		if !bad {
+			r.OK("R18.2", op, fmt.Sprintf("%d paths emit no per-operation metric", len(run.paths)))
+		}
 	}
 }
 
